@@ -320,7 +320,7 @@ func checkC15(e *env) {
 	r := e.res
 	r.Rule = "every built-in tile matrix set x every tile matrix without variable widths x the four corner tiles, border tiles and random tiles (quick 12, thorough 60 per matrix) x interior points at relative offsets " +
 		"{0.5, 1e-3, 1-1e-3, random, 1-3e-10, 3e-10, 1-2e-8} of the tile: ToNative(tile) against the exact rational corner (within 1e-9 + 4 ulp, the code rounds to 9 decimals), FromNative(interior point) = the tile (points closer than 2e-9 + 4 ulp to a tile border are counted as skipped), " +
-		"points outside the matrix extent map to no tile, MatrixBoundingBox = corner of tile (0,0) .. corner of tile (width,height), axis order x,y whatever the CRS; model: op tile (exact integer arithmetic over a common denominator). " +
+		"points outside the matrix extent map to no tile, MatrixBoundingBox = corner of tile (0,0) .. corner of tile (width,height), axis order x,y whatever the CRS (the order is taken from the document's orderedAxes, not from the implementation's EPSG table); model: op tile (exact integer arithmetic over a common denominator). " +
 		"Non-trivial = border or corner tile, or offset within 1e-3 of a tile border; distinct by op text."
 	skipped := 0
 	for _, name := range builtinNames {
@@ -329,6 +329,20 @@ func checkC15(e *env) {
 			continue
 		}
 		latlon, lerr := tms20.IsLatLon(t.CRS)
+		// the axis order as the document itself states it (orderedAxes), independent of the implementation's EPSG table
+		if len(t.OrderedAxes) == 2 {
+			first := strings.ToUpper(t.OrderedAxes[0])
+			docNorthingFirst := first == "LAT" || first == "Y" || first == "N" || first == "NORTHING" || first == "LATITUDE"
+			if first == "Y" && strings.ToUpper(t.OrderedAxes[1]) != "X" {
+				docNorthingFirst = false
+			}
+			r.count("axis-order", "axis-order "+name, true)
+			if lerr == nil && docNorthingFirst != latlon {
+				r.violation(Violation{Oracle: "axis-order-as-the-document-states-it", Op: name + " orderedAxes " + fmt.Sprint(t.OrderedAxes), Impl: fmt.Sprintf("IsLatLon = %v", latlon),
+					Detail: "ToNative / FromNative / MatrixBoundingBox take the point of origin in the order the EPSG table gives, the document lists its axes the other way round"})
+			}
+			latlon = docNorthingFirst
+		}
 		ids := make([]int, 0, len(t.TileMatrices))
 		for id := range t.TileMatrices {
 			ids = append(ids, id)
